@@ -480,7 +480,7 @@ def replay_dict(cfg, direction, hist, seq, i, clause, expected, observed, driven
         "others_created_via": "ask+report+should_prune(+tell)" if driven else "add_trial(create_trial) / ask+report for RUNNING",
         "sequence": [list(p) for p in seq],
         "asked_after_report_index": i, "step": (seq[i][0] if i >= 0 else None),
-        "expected": expected, "observed": observed, "_cfg": list(cfg),
+        "expected": expected, "observed": observed, "cfg_tuple": list(cfg),
     }
 
 
@@ -841,13 +841,13 @@ def _unjson(x: Any) -> Any:
 
 def replay_case(path: str) -> int:
     rep = json.load(open(path))
-    if "_cfg" not in rep:
+    if "cfg_tuple" not in rep:
         part = Part()
         c = rep["config"]
         bracket_case(part, (c["min_resource"], c["max_resource"], c["reduction_factor"]), rep["study_name"])
         print(json.dumps(part.out()["viol"], indent=1))
         return 1 if part.viol else 0
-    cfg = tuple(_unjson(rep["_cfg"]))
+    cfg = tuple(_unjson(rep["cfg_tuple"]))
     hist = tuple((st, tuple((int(s), float(v)) for s, v in _unjson(iv))) for st, iv in rep["others"])
     seq = tuple((int(s), float(v)) for s, v in _unjson(rep["sequence"]))
     direction, name = rep["direction"], rep.get("study_name", "c16")
